@@ -507,7 +507,7 @@ def check(pid, tier):
         'witness_drivers': ({'ran': True, 'built': wit['ok'], 'cases': wit['cases'], 'counterexamples': len(wit['witnesses']), 'wall_s': round(wit['wall'], 1),
                              'cmd': wit['cmd'], 'note': 'concrete boundary/random inputs against the real crate; bounded sampling, NOT counted in obligations/discharged',
                              'excluded_drivers_not_compiling': wit.get('excluded_drivers', []), 'log_tail': ('' if wit['ok'] else wit['log'][-800:])} if wit else {'ran': False}),
-        'explanation': coverage_note(pid),
+        'explanation': coverage_note(pid, units),
         'exit_code': exit_code,
     }
     ev = {'property_id': pid, 'tier': tier, 'seed': seed, 'level': 'proof', 'coverage': cov,
@@ -521,11 +521,18 @@ def check(pid, tier):
     return exit_code
 
 
-def coverage_note(pid):
+def coverage_note(pid, units=()):
+    """the property's note plus the notes filed under the names of the units that took part (lists of strings)"""
     p = os.path.join(VERIF, 'units', 'coverage_notes.json')
-    if os.path.exists(p):
-        return json.load(open(p)).get(pid, '')
-    return ''
+    if not os.path.exists(p):
+        return ''
+    d = json.load(open(p))
+    out = [d.get(pid, '')]
+    for u in units:
+        n = d.get(u)
+        if n:
+            out.append(f'[unit {u}] ' + (' '.join(n) if isinstance(n, list) else n))
+    return ' '.join(x for x in out if x)
 
 
 def assumptions_for(pid, units):
